@@ -57,14 +57,14 @@ def run(tier, seed, drv):
     fl.res = st.res
     fl.tag_counts = st.tag_counts
     for sc in msuite.corpus(PID):
-        st.check(msuite.fix_fractions(sc), nontrivial=nontrivial, judge_extra=[('C07', '')])
+        st.check(msuite.fix_fractions(sc), nontrivial=nontrivial, judge_extra=[('C07', 'user-errors')])
     n = 200 if tier == 'quick' else 8000
     for i in range(n):
         rng = rng_for(seed, PID, i)
         if i % 4 == 3:
             fl.check(float_scenario(rng), nontrivial=nontrivial)
         else:
-            st.check(time_scenario(rng), nontrivial=nontrivial, judge_extra=[('C07', '')])
+            st.check(time_scenario(rng), nontrivial=nontrivial, judge_extra=[('C07', 'user-errors')])
     return st.finish()
 
 
